@@ -64,6 +64,11 @@ def cases(tier, seed):
                    'temp_from_ckpt': (i // 4) % 2 == 0,
                    # the architecture is logged (summary / str / export) before the checkpoint
                    'log_before_ckpt': (i // 12) % 2 == 1,
+                   # the checkpoint is taken in a phase of the search in which one parameter group
+                   # is frozen; the fresh wrapper is NOT put into that phase: requires_grad flags
+                   # are no part of the state_dict, and none of the property's observations
+                   # (outputs, costs, summary, exported network) may depend on them
+                   'freeze_phase': [None, None, 'train_nas_only', None, 'train_net_only', None][(i // 7) % 6],
                    'crash': (tier == 'thorough' and i % 2 == 0) or (tier == 'quick' and i % 8 == 7),
                    'seed': seed * 104729 + i})
     return cs
@@ -99,6 +104,8 @@ def build_and_train(case):
     with torch.no_grad():
         torch.manual_seed(5)
         nas(*m['xs'])
+    if case.get('freeze_phase'):
+        getattr(nas, case['freeze_phase'])()
     if case.get('log_before_ckpt'):
         # "at any point of a search": a training loop that prints / exports the current
         # architecture and then checkpoints
@@ -165,6 +172,17 @@ def compare(ctx, case, snap_a, snap_b, load, how, applied):
         ctx.violation('load-state-dict', dict(d0, sig='keys:' + kind, **load))
         return
     ctx.mon('c17.snapshot_equal')
+    if case.get('freeze_phase'):
+        # the two wrappers differ in their requires_grad flags by construction of the case: the
+        # flags themselves, and whether / how a cost is differentiable, are not compared
+        def strip(sn):
+            sn = {k: v for k, v in sn.items() if k != 'requires_grad'}
+            if isinstance(sn.get('as_is'), dict):
+                sn['as_is'] = {k: v for k, v in sn['as_is'].items()
+                               if not (k.endswith('_requires_grad') or k.endswith('_grad'))}
+            return sn
+        snap_a, snap_b = strip(snap_a), strip(snap_b)
+        ctx.cls('freeze-phase:' + case['freeze_phase'])
     df = snapshot.diff(snap_a, snap_b)
     if df:
         ctx.violation('resume-differs', dict(d0, sig=kind + ':' + ','.join(sorted(
